@@ -5,6 +5,7 @@ package geom
 import "math"
 
 func init() {
+	vfHarnesses["C17_snap_negative_hunt"] = vfhC17SnapNegativeHunt
 	vfHarnesses["C17_simplify_rings"] = vfhC17SimplifyRings
 	vfHarnesses["C17_simplify"] = vfhC17Simplify
 	vfHarnesses["C17_simplify_3"] = vfhC17Simplify3
@@ -269,5 +270,33 @@ func vfhC17SimplifyRings() {
 		vfAssert(gotMP.Validate() == nil, "a returned MultiPolygon is valid")
 		vfReach("valid")
 	}
+	vfReach("end")
+}
+
+// Hunt (precise float64 division, rounding and multiplication): SnapToGrid at
+// negative decimal places on integer ordinates: the result is a multiple of the
+// grid step, at most half a step away, and the operation is odd.
+func vfhC17SnapNegativeHunt() {
+	n := vfInt("n", -2000, 2000)
+	x := float64(n)
+	var step float64
+	var dp int
+	if vfBool("hundreds") {
+		dp, step = -2, 100
+	} else {
+		dp, step = -1, 10
+	}
+	get := func(v float64) float64 {
+		xy, ok := NewPointXY(v, 0).SnapToGrid(dp).XY()
+		vfAssert(ok, "non-empty")
+		return xy.X
+	}
+	got := get(x)
+	d := got - x
+	vfAssert(d <= step/2 && d >= -step/2, "no ordinate moves by more than half a grid step")
+	q := got / step
+	vfAssert(q == math.Round(q), "the result is a multiple of the grid step")
+	vfAssert(get(-x) == -got, "odd: snap(-x) = -snap(x)")
+	vfAssert(get(got) == got, "idempotent")
 	vfReach("end")
 }
